@@ -736,3 +736,117 @@ func derivedFrom(v, src ssa.Value, depth int, seen map[ssa.Value]bool) bool {
 	}
 	return false
 }
+
+// r23ExclusionComputed (written after seed C14r): the routine that turns the per-call exclusion bitmap into
+// the list of excluded vector ids — a function of the package with a bitmap parameter and a map parameter keyed
+// by vector id whose only result is a list of vector ids — walks the map, or consults what the bitmap holds some
+// other way, on every path on which it has not just found the bitmap nil or empty. A guard that is wrong by a negation (`except == nil || !except.IsEmpty()`)
+// returns an empty list for exactly the calls that have something to exclude. Decides when the list is computed,
+// not that it is the right list.
+func r23ExclusionComputed(c *RuleCtx) {
+	props := []string{"C14"}
+	n := 0
+	for _, fn := range c.p.ZapFuncs {
+		if len(fn.Blocks) == 0 || fn.Parent() != nil {
+			continue
+		}
+		res := fn.Signature.Results()
+		if res.Len() != 1 {
+			continue
+		}
+		sl, ok := res.At(0).Type().Underlying().(*types.Slice)
+		if !ok {
+			continue
+		}
+		if bt, ok := sl.Elem().Underlying().(*types.Basic); !ok || bt.Kind() != types.Int64 {
+			continue
+		}
+		var except, table *ssa.Parameter
+		for _, p := range fn.Params {
+			if pt, ok := p.Type().Underlying().(*types.Pointer); ok && isBitmapPtr(pt.Elem()) {
+				except = p
+			}
+			if mt, ok := p.Type().Underlying().(*types.Map); ok {
+				if kt, ok := mt.Key().Underlying().(*types.Basic); ok && kt.Kind() == types.Int64 {
+					table = p
+				}
+			}
+		}
+		if except == nil || table == nil {
+			continue
+		}
+		n++
+		const (
+			evWalked = 1 << 0
+			evEmpty  = 1 << 1
+		)
+		pa := newPathAnalysis(fn, func(in ssa.Instruction, ev uint64, _ bool) []uint64 {
+			if r, ok := in.(*ssa.Range); ok && root(r.X) == ssa.Value(table) {
+				return []uint64{ev | evWalked}
+			}
+			// … or consults what the bitmap holds some other way: walks its iterator, asks it about a document,
+			// copies it, hands it to a routine that does (a memo keyed by it, the routine that computes the list)
+			if cs, ok := in.(ssa.CallInstruction); ok {
+				if f := staticCallee(cs); f != nil && f.Name() != "IsEmpty" && f.Name() != "GetCardinality" {
+					for _, a := range cs.Common().Args {
+						if root(a) == ssa.Value(except) {
+							return []uint64{ev | evWalked}
+						}
+					}
+				}
+			}
+			return nil
+		})
+		var condTr condTrFn
+		condTr = func(cond ssa.Value, outcome bool, ev uint64, actual func(ssa.Value) ssa.Value) uint64 {
+			switch x := cond.(type) {
+			case *ssa.UnOp:
+				if x.Op == token.NOT {
+					return condTr(x.X, !outcome, ev, actual)
+				}
+			case *ssa.BinOp:
+				if (x.Op == token.EQL && outcome) || (x.Op == token.NEQ && !outcome) {
+					if isNilConst(x.Y) && root(actual(x.X)) == ssa.Value(except) {
+						return ev | evEmpty
+					}
+					if k, ok := constUint64(x.Y); ok && k == 0 {
+						if call, ok := x.X.(*ssa.Call); ok {
+							if f := call.Call.StaticCallee(); f != nil && f.Name() == "GetCardinality" && len(call.Call.Args) > 0 && root(actual(call.Call.Args[0])) == ssa.Value(except) {
+								return ev | evEmpty
+							}
+						}
+					}
+				}
+			case *ssa.Call:
+				if f := x.Call.StaticCallee(); f != nil && f.Name() == "IsEmpty" && outcome && len(x.Call.Args) > 0 && root(actual(x.Call.Args[0])) == ssa.Value(except) {
+					return ev | evEmpty
+				}
+			}
+			return ev
+		}
+		pa.condTr = condTr
+		pa.edgeTr = func(pred *ssa.BasicBlock, succIdx int, ev uint64) uint64 {
+			iff, ok := pred.Instrs[len(pred.Instrs)-1].(*ssa.If)
+			if !ok || len(pred.Succs) != 2 || pred.Succs[0] == pred.Succs[1] {
+				return ev
+			}
+			return pa.learn(iff.Cond, succIdx == 0, ev)
+		}
+		pa.run(0)
+		labels := map[string]int{}
+		for _, ret := range returnsOf(fn) {
+			if !pa.reachable(ret.Block()) {
+				continue
+			}
+			okc := true
+			for _, ev := range pa.statesBefore(ret) {
+				if ev&(evWalked|evEmpty) == 0 {
+					okc = false
+				}
+			}
+			c.add2(okc, props, "exclusion-computed/"+funcShortName(fn)+"/"+exitLabel(ret, labels), c.pos(ret), "the list of excluded vector ids is computed from the table on every path on which the exclusion bitmap has not just been found nil or empty",
+				"a path returns without walking the table although the exclusion bitmap may hold documents: their vectors would not be excluded", "exit: "+describeInstr(c.p, ret))
+		}
+	}
+	c.add2(n >= 1, props, "exclusion-computed/sites", "-", "the routine that computes the excluded vector ids is found (pinned tree: getVecIDsToExclude)", fmt.Sprintf("found %d", n))
+}
